@@ -40,7 +40,7 @@ pub struct Scenario {
     pub rrt_try: usize,   // max_try of the RRT planner
     pub rng: usize,       // RRT step: 0 -> 0.25 rad, 1 -> 0.8 rad (sample draws are the constant 1/2)
     pub land: usize,      // 0 tool straight down (2 wrist-flip strategies), 1 tilted posture (4 strategies over two arm branches)
-    pub turn: usize,      // 1: the legs after the first are 2 cm long and turn the tool by 0.7 rad about its axis (rotation needs more check steps than translation)
+    pub turn: usize,      // 1: the legs after the first are 2 cm long and turn the tool by 0.7 rad about its axis (rotation needs more check steps than translation); 2: every second stroke pose repeats the one before it and the parking pose is the last stroke pose (consecutive identical poses)
 }
 
 pub const STEP_M: [f64; 3] = [0.02, 0.05, 1.0];
@@ -95,10 +95,13 @@ pub fn build(s: &Scenario) -> Built {
         } else {
             [0.0, leg, 0.0]
         };
-        cur = if s.turn == 1 && k > 0 { Iso::new(mmul(&cur.r, &rotz(0.7)), add(cur.t, scale(d, 0.4))) } else { Iso::new(cur.r, add(cur.t, d)) };
+        cur = if s.turn == 2 && k % 2 == 1 {
+            cur // dwell: the same pose again
+        } else if s.turn == 1 && k > 0 { Iso::new(mmul(&cur.r, &rotz(0.7)), add(cur.t, scale(d, 0.4))) } else { Iso::new(cur.r, add(cur.t, d)) };
         steps.push(cur);
     }
-    let park = Iso::new(cur.r, add(cur.t, [0.0, 0.0, leg]));
+    // dwell scenarios also park where the stroke ends (no lift-off)
+    let park = if s.turn == 2 { cur } else { Iso::new(cur.r, add(cur.t, [0.0, 0.0, leg])) };
     let from = match s.start {
         0 => q_land,
         1 => std::array::from_fn(|i| q_land[i] + [0.1, -0.1, -0.1, 0.1, -0.14, -0.1][i]),
@@ -543,7 +546,7 @@ pub fn run(ctx: &Ctx) -> Report {
         par::decode(idx, &sizes, &mut ix);
         let s = Scenario {
             start: ix[0], stroke: ix[1], cornered: ix[2] == 1, step_m: ix[3], step_rad: ix[4], cost: ix[5], depth: ix[6], interp: ix[7] == 1,
-            obstacle: ix[8], safety: ix[9], limits: ix[10], rrt_try: [4, 1, 0][(ix[0] + ix[5]) % 3], rng: 0, land: (ix[1] + ix[3]) % 2, turn: usize::from((ix[0] + ix[3] + ix[6]) % 3 == 0),
+            obstacle: ix[8], safety: ix[9], limits: ix[10], rrt_try: [4, 1, 0][(ix[0] + ix[5]) % 3], rng: 0, land: (ix[1] + ix[3]) % 2, turn: [1, 0, 2][(ix[0] + ix[3] + ix[6]) % 3],
         };
         let (fails, sig) = eval_scenario(&s, false);
         r.states += 1;
@@ -573,7 +576,7 @@ pub fn run(ctx: &Ctx) -> Report {
             }
             let s = Scenario {
                 start: ix[0], stroke: ix[1], cornered: ix[2] == 1, step_m: ix[3], step_rad: ix[4], cost: ix[5], depth: ix[6], interp: ix[7] == 1,
-                obstacle: ix[8], safety: ix[9], limits: ix[10], rrt_try: 4, rng: 0, land: (ix[1] + ix[3]) % 2, turn: usize::from((ix[0] + ix[3] + ix[6]) % 3 == 0),
+                obstacle: ix[8], safety: ix[9], limits: ix[10], rrt_try: 4, rng: 0, land: (ix[1] + ix[3]) % 2, turn: [1, 0, 2][(ix[0] + ix[3] + ix[6]) % 3],
             };
             let (fails, sig) = eval_scenario(&s, true);
             rep.states += 1;
@@ -609,7 +612,7 @@ pub fn run(ctx: &Ctx) -> Report {
     }
     rep.set("schedule_exploration", json!(sched_summary));
     rep.traces_validated += rep.states;
-    rep.rule = "E1: scenarios = start {landing configuration, nearby, far} x stroke {0..3 poses} x {straight, cornered} (a third of the scenarios with short legs that turn the tool by 0.7 rad, so rotation dictates the check steps) x check steps x cost limits x recursion depths x \
+    rep.rule = "E1: scenarios = start {landing configuration, nearby, far} x stroke {0..3 poses} x {straight, cornered} (a third of the scenarios with short legs that turn the tool by 0.7 rad, so rotation dictates the check steps; a third with repeated stroke poses and parking on the last stroke pose) x check steps x cost limits x recursion depths x \
                 include-interpolation x obstacles {free, grazing 1.1r, inside 0.9r, fin across a leg, block on one landing branch, slab} x safety x limits, RRT \
                 draws scripted to a constant; oracle on Ok: waypoints free (collides + brute-force pairs) and within limits, path[0] = given start, LAND/TRACE/PARK \
                 embed in order with pose reproduced by the reference FK, LIN_INTERP waypoints on the segment, transition cost, no LIN_INTERP unless requested; \
